@@ -367,15 +367,14 @@ def r7(ctx, RULE="C05.R7"):
         return
     # a store into the reassembly table replaces whatever context was there: it may only open a context for an unseen id
     from engine.cond import CondCtx
-    from .common import node_lits
+    from .common import node_lits, known_absent
     cc = CondCtx(ctx.folder, fi.module, fi.cls)
     opens = [n for n in walk_own(fi.node) if isinstance(n, ast.Subscript) and isinstance(n.ctx, ast.Store) and norm(n.value) == "self.received_fragments"]
     if ctx.require(RULE, fi, "opening of a reassembly context (self.received_fragments[id] = ...)", len(opens), 1):
         for n in opens:
             lits = node_lits(cfg, cfg.node_of(n).id, cc)
             key = norm(n.slice)
-            fresh = any(l.kind == "atom" and ((not l.positive and l.subject == "%s in self.received_fragments" % key)
-                                              or (l.positive and l.subject == "%s not in self.received_fragments" % key)) for l in lits)
+            fresh = known_absent(fi, cfg, cc, n, key, "self.received_fragments")
             ctx.check(fresh, RULE, fi, n, "a reassembly context is opened only for a fragment id that has none (fragments already received are never dropped by an overwrite)",
                       witness=[repr(l) for l in lits], line=n.lineno)
     for d in dels:
